@@ -68,7 +68,8 @@ func enumPaths(n int, names []string) []lib.Path {
 	return out
 }
 
-const c16Alphabet = "abcxe019./|^() @"
+// the last five characters are Unicode white space that is NOT white space of the grammar ([ \\n\\t\\r] only)
+const c16Alphabet = "abcxe019./|^() \n@\u00a0\v\f\u2028\u3000"
 
 // singleEdits returns every string at edit distance one (delete / insert / replace one character of the alphabet).
 func singleEdits(s string) []string {
@@ -226,7 +227,7 @@ func c16(tier string) {
 				for v := 0; v < 3; v++ {
 					add(lib.PrintPathVariant(p, &lib.PathPrintOpts{
 						ExtraParens: func() bool { return r0.Intn(3) == 0 },
-						Space:       func() string { return pick(r0, " ", "", "  ", "\t") },
+						Space:       func() string { return pick(r0, " ", "", "  ", "\t", "\n", " \r\n ") },
 					}), "variant", p, canon)
 				}
 				if n <= ctx.N(2, 3) {
@@ -271,6 +272,20 @@ func c16(tier string) {
 			ctx.Begin(it.text, map[string]string{"profile": ptext})
 			cp := lib.Compile(ptext, nil)
 			ctx.End()
+			// the same string as the argument of a property comparison (next to another constraint): a path is a path
+			if hash(it.text)%2 == 0 {
+				ap := &lib.ProfileDoc{Name: "c16arg", Prefixes: [][2]string{{"ex", lib.EX}}, Violation: []string{"v"},
+					Validations: []lib.Validation{{Name: "v", TargetClass: "ex.T", Message: "m", Body: lib.PC1("ex.z", lib.CScalar(pick(lib.CaseRand(ctx.Seed, 16, int(hash(it.text)%1000)), "lessThanProperty", "equalsToProperty", "disjointWithProperty", "lessThanOrEqualsToProperty"), lib.Str(it.text)), lib.CScalar("minCount", lib.Int(1)))}}}
+				atext := ap.Text()
+				ac := lib.Compile(atext, nil)
+				ctx.Count("strings_also_judged_as_comparison_argument", 1)
+				if it.valid && ac.Failed() {
+					ctx.Violation("sentence-rejected", fmt.Sprintf("path %q is a sentence of the grammar but was rejected as the argument of a property comparison: %s", it.text, ac.ErrString()), map[string]any{"profile": atext, "path": it.text})
+				}
+				if !it.valid && !ac.Failed() {
+					ctx.Violation("nonsentence-accepted", fmt.Sprintf("string %q is not a sentence of the path grammar but was accepted as the argument of a property comparison", it.text), map[string]any{"profile": atext, "path": it.text})
+				}
+			}
 			ctx.Eval(it.text)
 			rp := map[string]any{"profile": ptext, "data": graphs[0].CanonicalJSONLD(), "path": it.text, "origin": it.origin}
 			if it.valid {
